@@ -322,7 +322,10 @@ def check_case(ctx, case):
                 for i in range(n):
                     try:
                         with quiet(), np.errstate(all="ignore"):
-                            getattr(magpy, "get" + F)(objs.build(s), Pg[i:i + 1], squeeze=False)
+                            # alone, and replicated so that every scalar/vector switch of the special
+                            # functions (n < 10, n < 15) and the multi-row paths are exercised
+                            for k in (1, 2, 3, 9, 12, 16):
+                                getattr(magpy, "get" + F)(objs.build(s), np.repeat(Pg[i:i + 1], k, axis=0), squeeze=False)
                     except Exception as e1:
                         culprits += 1
                         ctx.violation({"kind": "raises-or-hangs", "cls": s["cls"], "tags": region(s, Pl[i])},
